@@ -60,6 +60,11 @@ def runCliLine (line : String) : List String × (TextStats → TextStats) :=
         | none => return okc true
         | some ps =>
           if ps.length != rounds then return fail s!"{ps.length} spawn lines for {rounds} rounds"
+          -- random placements (read back from -debug) lie in [2·Length, CoreSize − Length − 1]
+          if ws.length == 2 && flags.fixed == 0 &&
+              ps.any (fun x => x.toNat < 2 * cfg.length.toNat || x.toNat + cfg.length.toNat + 1 > cfg.coreSize.toNat) then
+            return ([s!"V {id} {tag} CORR op=0 random placement {ps.map (·.toNat)} outside [2*{cfg.length.toNat}, {cfg.coreSize.toNat}-{cfg.length.toNat}-1]"],
+                    fun st => { st with cases := st.cases + 1 })
           match Cli.battles cfg ws ps with
           | none => return fail "the battle model fails where the tool succeeded"
           | some t =>
@@ -69,5 +74,28 @@ def runCliLine (line : String) : List String × (TextStats → TextStats) :=
             else return okc true
     | _ => ([s!"V ? cli PARSE op=0 Z line {req.take 80}"], fun s => s)
   | _ => (["V ? cli PARSE op=0 Z line"], fun s => s)
+
+end Gmars.Driver
+
+namespace Gmars.Driver
+open Gmars Gmars.Wire
+
+/-- `Q <id> preset <name|-> | <cfg×8> | err`: a named preset as the library returns it, against the
+    model's table (`Cli.preset?`) -/
+def runPresetLine (line : String) : List String × (TextStats → TextStats) :=
+  match line.splitOn " | " with
+  | [req, resp] =>
+    match (req.splitOn " ").filter (· != "") with
+    | ["Q", id, _, name] =>
+      let name := if name == "-" then "" else name
+      let show_ (c : Config) : String :=
+        s!"{c.mode.toNat} {c.coreSize.toNat} {c.processes.toNat} {c.cycles.toNat} {c.readLimit.toNat} {c.writeLimit.toNat} {c.length.toNat} {c.distance.toNat}"
+      let want := match Cli.preset? name with | some c => show_ c | none => "err"
+      let got := resp.trimAscii.toString
+      if want != got then
+        ([s!"V {id} preset CORR op=0 preset '{name}': model {want} impl {got}"], fun s => { s with cases := s.cases + 1 })
+      else ([s!"V {id} preset OK ops=1 nt=1"], fun s => { s with cases := s.cases + 1, nontrivial := s.nontrivial + 1 })
+    | _ => (["V ? preset PARSE op=0 Q line"], fun s => s)
+  | _ => (["V ? preset PARSE op=0 Q line"], fun s => s)
 
 end Gmars.Driver
